@@ -104,7 +104,7 @@ _STATEMC_RULE = ("E2 statemc: breadth-first search over event histories (request
 
 CHECKS["C05"] = {
     "level": "model_checking",
-    "technique": "explicit-state BFS over token histories of the real coupled request/response parser with a lifecycle monitor automaton on every callback",
+    "technique": "explicit-state BFS over token histories (three alphabets) and deviation-bounded token-edit histories under all schedules with <= P preemptions of the real coupled request/response parser, with a lifecycle monitor automaton on every callback; merge soundness of the search self-checked",
     "level_text": "Every event history up to the stated depth over the micro (line-sized, incl. malformed and half tokens) and macro (message-sized) alphabets is executed on the "
                   "real parser; the M-life monitor (per-side callback rank never decreases except the interim-100 restart, progress never moves back, each COMPLETE at most "
                   "once, TRANSACTION_COMPLETE only with both sides complete, nothing after it) is evaluated on every callback of every transition. Depth-bounded exhaustive, "
@@ -167,7 +167,7 @@ CHECKS["C04"] = {
 
 CHECKS["C16"] = {
     "level": "model_checking",
-    "technique": "exhaustive enumeration of cut positions around the CONNECT / response head and of all legal interleavings, with a tunnel reference monitor, on the real code",
+    "technique": "exhaustive enumeration of every cut position of both streams (full product) and of all legal interleavings over a CONNECT / upgrade scenario product, with a tunnel reference monitor, on the real code",
     "level_text": "CONNECT (and GET+Upgrade) exchanges x status {200,204,101,407,403,500} x payload {none, 2 HTTP requests, TLS-like bytes} x optional body, each stream uncut or cut at "
                   "every position in a +-3 byte window around the end of the CONNECT head / response head, every legal interleaving of the resulting chunks, both tx_auto_destroy "
                   "settings, under the documented hand-over. Oracle: (i) nothing beyond the CONNECT head is consumed before the first response byte; (ii) for 2xx+non-HTTP payload or "
@@ -187,7 +187,7 @@ CHECKS["C16"] = {
 
 CHECKS["C09"] = {
     "level": "model_checking",
-    "technique": "explicit-state BFS over token histories plus exhaustive interleaving workloads, with a stream-API contract monitor after every call, on the real code",
+    "technique": "explicit-state BFS over token histories, deviation-bounded token-edit histories (every execution again with one callback deviation at every callback ordinal) plus exhaustive interleaving workloads, with a stream-API contract monitor after every call, on the real code",
     "level_text": "M-api is evaluated after every data call of every transition of the statemc search (documented hand-over and raw call order, one callback deviation "
                   "DECLINED/STOP/ERROR per history up to the deviation depth) and of every schedule of the C04 / C16 interleaving workloads: return code in the documented set, DATA => whole "
                   "chunk consumed, DATA_OTHER => strictly fewer bytes and the driver resumes exactly at the reported count (C04/C16 oracles would see a skipped or repeated byte), byte "
@@ -262,7 +262,7 @@ CHECKS["C17"] = {
 
 CHECKS["C18"] = {
     "level": "fault_enumeration",
-    "technique": "exhaustive single- and double-fault enumeration (fail the k-th allocation for every k) on the real code under ASan+UBSan",
+    "technique": "exhaustive single- and double-fault enumeration (fail the k-th allocation for every k) over the capture corpus and over deviation-bounded token-edit histories under every schedule with <= 1 preemption, on the real code under ASan+UBSan",
     "level_text": "For each of the repository's ~100 captures plus 19 generated exchanges (multipart with file, urlencoded, cookies, all auth types, CONNECT, pipelining, PUT, folded headers, "
                   "100-continue, chunked+trailer, gzip/zlib/raw deflate/2-layer/request gzip, absolute URI, 0.9, malformed lines), under two configurations and two chunkings (as captured, and "
                   "re-cut into 5-byte chunks so that the line-buffering allocations exist), the run is repeated once per allocation made inside libhtp (malloc/calloc/realloc/strdup incl. the "
